@@ -3,7 +3,7 @@ CONSTANTS
   Constructs = {"pp", "pfe", "worker", "map", "gen"}
   Ns = {0, 1, 2, 3, 4, 5, 6, 7, 8}
   Ks = {1, 2, 3, 4}
-  FKinds = {"err", "wrapped", "panicErr", "panicStr", "panicOther", "skip", "eof", "abort", "ctx", "excl"}
+  FKinds = {"err", "wrapped", "panicErr", "panicStr", "panicOther", "skip", "eof", "abort", "ctx", "excl", "panicW_EOF", "panicW_SKIP", "panicW_CTX", "panicW_X", "panicW_ABORT"}
   MaxFaults = 2
   MaxFaultPos = 8
   OptSet <- OptsAll
